@@ -172,6 +172,8 @@ func oddTypes() []protoreflect.MessageDescriptor {
 			{Name: proto.String("BytesName"), Field: []*descriptorpb.FieldDescriptorProto{f("name", 1, byt, opt, "")}},
 			{Name: proto.String("MsgName"), Field: []*descriptorpb.FieldDescriptorProto{f("name", 1, msgT, opt, ".verif.c12.NoName")}},
 			{Name: proto.String("RepName"), Field: []*descriptorpb.FieldDescriptorProto{f("name", 1, str, rep, ""), f("other", 2, str, opt, "")}},
+			{Name: proto.String("NestedName"), Field: []*descriptorpb.FieldDescriptorProto{f("name", 1, str, opt, ""), f("child", 2, msgT, opt, ".verif.c12.StrName"), f("children", 3, msgT, rep, ".verif.c12.StrName")}},
+			{Name: proto.String("NestedOnly"), Field: []*descriptorpb.FieldDescriptorProto{f("child", 1, msgT, opt, ".verif.c12.StrName"), f("title", 2, str, opt, "")}},
 			{Name: proto.String("StrName"), Field: []*descriptorpb.FieldDescriptorProto{f("other", 1, str, opt, ""), f("name", 7, str, opt, ""), f("names", 8, str, rep, "")}},
 		},
 	}
@@ -235,6 +237,25 @@ func (g *c12) nameDefaults() {
 			if k == 2 {
 				if fd := d.Fields().ByName("name"); fd != nil && fd.Kind() == protoreflect.StringKind && !fd.IsList() {
 					m.Clear(fd)
+				}
+				// nested messages present, with their own name empty: they must stay as they are
+				for i := 0; i < d.Fields().Len(); i++ {
+					fd := d.Fields().Get(i)
+					if fd.Message() == nil || fd.IsMap() {
+						continue
+					}
+					var sub protoreflect.Message
+					if fd.IsList() {
+						l := m.Mutable(fd).List()
+						e := l.NewElement()
+						l.Append(e)
+						sub = e.Message()
+					} else {
+						sub = m.Mutable(fd).Message()
+					}
+					if nf := sub.Descriptor().Fields().ByName("name"); nf != nil && nf.Kind() == protoreflect.StringKind && !nf.IsList() {
+						sub.Clear(nf)
+					}
 				}
 			}
 			g.defaultCase(m, "dflt", string(d.FullName()))
